@@ -470,7 +470,11 @@ func collectRaceReports(scratch string) map[string]*raceReport {
 					}
 				}
 			}
-			k := topUser(rr.frames[0]) + " <-> " + topUser(rr.frames[1])
+			ka, kb := topUser(rr.frames[0]), topUser(rr.frames[1])
+			if kb < ka {
+				ka, kb = kb, ka
+			}
+			k := ka + " <-> " + kb
 			if _, ok := out[k]; !ok {
 				out[k] = rr
 			}
